@@ -83,8 +83,9 @@ def weka_quote(s):
 
 
 def liac_quote(s):
-    """liac-arff encode_string (the library OpenML uses to produce ARFF)"""
-    if s == "" or s == "?" or any(ch in s for ch in "\"'\\ \t\n\r%,{}") or any(ord(ch) < 32 for ch in s):
+    """liac-arff encode_string (the library OpenML uses to produce ARFF): quotes on " ' \\ white space % , and control
+    characters -- NOT on braces, so `{x}` is written bare"""
+    if s == "" or s == "?" or any(ch in s for ch in "\"'\\ \t\n\r%,") or any(ord(ch) < 32 for ch in s):
         return "'" + "".join(("\\" + ch) if ch in "\\'\"" else ch for ch in s) + "'"
     return s
 
@@ -101,8 +102,8 @@ def alt_quote(s, q, esc_all):
     return q + "".join(out) + q
 
 
-def needs_quote(s):
-    return s == "" or s == "?" or any(ch in s for ch in "\"'\\ \t%,{}")
+def needs_quote(s, style="weka"):
+    return s == "" or s == "?" or any(ch in s for ch in ("\"'\\ \t%,{}" if style == "weka" else "\"'\\ \t%,"))
 
 
 def _dec(sp, *key):
@@ -117,7 +118,7 @@ def arff_token(s, sp, key):
     t = weka_quote(s) if style == "weka" else liac_quote(s)
     qs = sp.get("quote", "single")
     r = _dec(sp, "tok", *key)
-    if t[0] == "'" and len(t) >= 2 and needs_quote(s):
+    if t[0] == "'" and len(t) >= 2 and needs_quote(s, style):
         if qs == "double" or (qs == "mix" and r.chance(0.5)):
             t = alt_quote(s, '"', style == "weka")
     elif sp.get("force_quote") and r.chance(0.7):
@@ -455,17 +456,43 @@ def run_delim(chunks):
         return {"err": errname(e)}
 
 
-def run_disk(writes, gz, batch, name="f"):
-    """DiskSink(path,batch=batch).write(w) for each w, then list(DiskSource(path).read()); also the raw bytes"""
+def script_lines(script):
+    """all lines a usage script of a DiskSink writes, in order.  op = {"w": str|[str]} | {"with": [op…]}"""
+    out = []
+    for op in script:
+        if "with" in op:
+            out += script_lines(op["with"])
+        else:
+            out += [op["w"]] if isinstance(op["w"], str) else list(op["w"])
+    return out
+
+
+def run_script(sink, script):
+    for op in script:
+        if "with" in op:
+            with sink:
+                run_script(sink, op["with"])
+        else:
+            sink.write(op["w"])
+
+
+def run_disk(writes, gz, batch, name="f", mode=None):
+    """one DiskSink(path[,mode][,batch]) used as the script says (plain write calls, with-blocks around writes, nested),
+    then list(DiskSource(path).read()); also the raw bytes.  `writes`: a script, or a plain list of write arguments"""
     from coba.pipes.sinks import DiskSink
     from coba.pipes.sources import DiskSource
+    script = writes if (writes and isinstance(writes[0], dict)) else [{"w": w} for w in writes]
     d = tempfile.mkdtemp(prefix="c12_")
     try:
         path = os.path.join(d, name + (".log.gz" if gz else ".log"))
         try:
-            sink = DiskSink(path, batch=batch) if batch else DiskSink(path)
-            for w in writes:
-                sink.write(w)
+            kw = {}
+            if batch:
+                kw["batch"] = batch
+            if mode:
+                kw["mode"] = mode
+            sink = DiskSink(path, **kw)
+            run_script(sink, script)
             raw = None
             if os.path.exists(path):
                 with open(path, "rb") as f:
@@ -925,6 +952,10 @@ def arff_family(reduced, symptom, culprits):
     data = [l for l in lines[k[0] + 1:] if l.strip() and not l.strip().startswith("%")] if k else []
     sq = any("'" in l for l in data)
     dq = any('"' in l for l in data)
+    if dense and data and data[0].strip().startswith("{") and data[0].strip().endswith("}") and \
+            any(c.endswith("-lbrace") for c in chars) and any(c.endswith("-rbrace") for c in chars):
+        # a dense first data row that begins with a bare `{` and ends with a bare `}` is taken for a sparse row
+        return "arff-dense:first-row-wrapped-in-bare-braces-read-as-sparse"
     if symptom == "missing-flag" and not dense and "missing" in C and not chars and any(c.startswith("sp-sparse_pad") for c in C):
         return "arff-sparse:missing-flag-blank-before-closing-brace"
     if symptom == "missing-flag" and dense:
@@ -1072,21 +1103,48 @@ class C12(Property):
         return {"kind": "delim", "chunks": chunks}
 
     def gen_disk(self, rng, tier):
-        nw = rng.choice([1, 1, 1, 2, 3])
-        writes = []
-        bad = rng.chance(0.15)
-        for _ in range(nw):
+        bad = rng.chance(0.12)
+
+        def gen_write():
             n = rng.choice([0, 1, 2, 3, 4, 6])
             w = []
             for _ in range(n):
-                l = "".join(rng.choice(ALPHA_TEXT + ["\x0b", " ", "\x85"]) for _ in range(rng.choice([0, 1, 2, 4, 8])))
+                l = "".join(rng.choice(ALPHA_TEXT + ["\x0b", "\u2028", "\x85"]) for _ in range(rng.choice([0, 1, 2, 4, 8])))
                 if bad and rng.chance(0.4):
                     l += rng.choice(["\r", "\rx", "\n", "\r\n", "x\ny"])
                 w.append(l)
             if n == 1 and rng.chance(0.4):
-                w = w[0]                     # DiskSink.write accepts a single str
-            writes.append(w)
-        return {"kind": "disk", "writes": writes, "gz": rng.chance(0.5), "batch": rng.choice([None, None, 1, 2, 3])}
+                return {"w": w[0]}                     # DiskSink.write accepts a single str
+            return {"w": w}
+
+        def gen_ops(depth):
+            ops = []
+            for _ in range(rng.choice([1, 1, 2, 3])):
+                if depth < 2 and rng.chance(0.35):
+                    ops.append({"with": gen_ops(depth + 1)})
+                else:
+                    ops.append(gen_write())
+            return ops
+
+        pattern = rng.below(10)
+        if pattern < 4:
+            script = [gen_write() for _ in range(rng.choice([1, 1, 1, 2, 3]))]          # plain write calls
+        elif pattern < 7:
+            script = [{"with": [gen_write() for _ in range(rng.choice([1, 2, 2, 3]))]}]   # one with-block around the writes
+            if rng.chance(0.5):
+                script.append(gen_write())                                                  # and a write after it
+            if rng.chance(0.25):
+                script.insert(0, gen_write())
+        else:
+            script = gen_ops(0)
+        mode = None
+        if rng.chance(0.3):
+            # mode 'w' truncates whenever the file is (re)opened: everything is written inside one outermost with-block
+            mode = "w"
+            script = [{"with": script}]
+        elif rng.chance(0.15):
+            mode = "a"
+        return {"kind": "disk", "script": script, "mode": mode, "gz": rng.chance(0.5), "batch": rng.choice([None, None, 1, 2, 3])}
 
     def gen_csv(self, rng, tier):
         rows, header = gen_csv_table(rng)
@@ -1101,7 +1159,25 @@ class C12(Property):
     def gen_arff(self, rng, tier):
         dense = rng.chance(0.65)
         t = gen_table(rng, tier)
-        return {"kind": "arff", "table": t, "dense": dense, "sp": gen_arff_sp(rng), "via": gen_via(rng) if rng.chance(0.3) else {"mode": "lines"}, "src": rng.chance(0.2)}
+        sp0 = None
+        if rng.chance(0.12) and t["rows"]:
+            # braces at the edges of the first data row (what decides dense vs sparse); liac-arff writes them bare
+            which = rng.choice(["first", "last", "both", "last"])
+            for j in ([0] if which == "first" else [len(t["cols"]) - 1] if which == "last" else [0, len(t["cols"]) - 1]):
+                c = t["cols"][j]
+                t["cols"][j] = {"name": c["name"], "type": "string"}
+                for i, row in enumerate(t["rows"]):
+                    if i == 0:
+                        row[j] = rng.choice(["{x}", "{x", "x}", "{", "}", "{a b}", "a{b}"]) if which != "both" else (rng.choice(["{x", "{x}", "{"]) if j == 0 else rng.choice(["x}", "{x}", "}"]))
+                    elif row[j] is not None:
+                        row[j] = str(row[j])
+            sp0 = {"sseed": rng.randint(0, 10 ** 6), "style": "liac" if rng.chance(0.8) else "weka"}
+        sp = gen_arff_sp(rng)
+        if sp0 is not None and rng.chance(0.7):
+            sp = sp0
+        elif sp0 is not None:
+            sp["style"] = sp0["style"]
+        return {"kind": "arff", "table": t, "dense": dense, "sp": sp, "via": gen_via(rng) if rng.chance(0.3) else {"mode": "lines"}, "src": rng.chance(0.2)}
 
     def generate(self, rng, tier):
         k = rng.wchoice([(22, "chunk"), (8, "delim"), (10, "disk"), (16, "csv"), (9, "svm"), (35, "arff")])
@@ -1141,6 +1217,10 @@ class C12(Property):
         cs.append({"kind": "disk", "writes": [["aé", "", "b "]], "gz": False, "batch": None})
         cs.append({"kind": "disk", "writes": [["a", "b", "c", "d"], "e"], "gz": True, "batch": 2})
         cs.append({"kind": "disk", "writes": [["a\rb"]], "gz": False, "batch": None})
+        for gz in (False, True):
+            cs.append({"kind": "disk", "script": [{"with": [{"w": "first"}, {"w": ["second", "third"]}]}, {"w": "fourth"}], "mode": None, "gz": gz, "batch": None})
+            cs.append({"kind": "disk", "script": [{"with": [{"w": "first"}, {"w": ["second", "third"]}]}], "mode": "w", "gz": gz, "batch": None})
+            cs.append({"kind": "disk", "script": [{"with": [{"with": [{"w": ["a", "b", "c"]}]}, {"w": "d"}]}, {"w": ["e"]}], "mode": None, "gz": gz, "batch": 2})
         base = {"sseed": 1, "quoting": "minimal", "delimiter": ","}
         cs.append({"kind": "csv", "rows": [[" a", "b"]], "header": None, "sp": base, "via": {"mode": "lines"}})
         cs.append({"kind": "csv", "rows": [["x", ""]], "header": None, "sp": dict(base, delimiter="\t"), "via": {"mode": "lines"}})
@@ -1290,18 +1370,31 @@ class C12(Property):
 
     # .................................................................. disk
     def eval_disk(self, case, driver):
-        fails, tags = [], ["kind:disk", "gz" if case["gz"] else "plain", "batch:%s" % case["batch"]]
-        writes = case["writes"]
-        flat = []
-        for w in writes:
-            flat += [w] if isinstance(w, str) else list(w)
+        fails, tags = [], ["kind:disk", "gz" if case["gz"] else "plain", "batch:%s" % case["batch"], "mode:%s" % (case.get("mode") or "a+")]
+        script = case.get("script") or [{"w": w} for w in case["writes"]]
+
+        def wargs(sc):
+            out = []
+            for op in sc:
+                out += wargs(op["with"]) if "with" in op else [op["w"]]
+            return out
+
+        def depth(sc):
+            return max([1 + depth(op["with"]) for op in sc if "with" in op] + [0])
+        writes = wargs(script)
+        flat = script_lines(script)
+        dp = depth(script)
+        if dp:
+            tags.append("with-block" + (":nested" if dp > 1 else ""))
+            if any("with" not in op for op in script) and any("with" in op for op in script):
+                tags.append("with-block:and-plain-writes")
         hyp = all("\r" not in l and "\n" not in l for l in flat)
-        impl = run_disk(writes, case["gz"], case["batch"])
+        impl = run_disk(script, case["gz"], case["batch"], mode=case.get("mode"))
         raw = impl.pop("raw", None)
         if not hyp:
             tags.append("line-with-terminator")
         if hyp and impl != {"ok": flat}:
-            fails.append(F("B", "DiskSink(%s,batch=%r).write(..) x%d then DiskSource.read(): %r, written %r" % ("x.log.gz" if case["gz"] else "x.log", case["batch"], len(writes), impl, flat),
+            fails.append(F("B", "DiskSink(%s%s,batch=%r) used as %s then DiskSource.read(): %r, written %r" % ("x.log.gz" if case["gz"] else "x.log", ", mode=%r" % case["mode"] if case.get("mode") else "", case["batch"], json.dumps(script), impl, flat),
                            "disk:" + ("raises-" + impl["err"] if "err" in impl else "lines-differ") + (":gz" if case["gz"] else ":plain")))
         model = None
         if driver is not None:
@@ -1688,17 +1781,31 @@ class C12(Property):
                 for j in range(len(ch[i])):
                     yield dict(case, chunks=ch[:i] + [ch[i][:j] + ch[i][j + 1:]] + ch[i + 1:])
         elif k == "disk":
-            ws = case["writes"]
-            for i in range(len(ws)):
-                if len(ws) > 1:
-                    yield dict(case, writes=ws[:i] + ws[i + 1:])
-                if not isinstance(ws[i], str):
-                    for j in range(len(ws[i])):
-                        yield dict(case, writes=ws[:i] + [ws[i][:j] + ws[i][j + 1:]] + ws[i + 1:])
+            sc = case.get("script") or [{"w": w} for w in case["writes"]]
+            base = {kk: vv for kk, vv in case.items() if kk != "writes"}
+
+            def variants(ops):
+                for i, op in enumerate(ops):
+                    if len(ops) > 1:
+                        yield ops[:i] + ops[i + 1:]
+                    if "with" in op:
+                        yield ops[:i] + op["with"] + ops[i + 1:]            # unwrap the with-block
+                        for v in variants(op["with"]):
+                            yield ops[:i] + [{"with": v}] + ops[i + 1:]
+                    elif not isinstance(op["w"], str):
+                        for j in range(len(op["w"])):
+                            yield ops[:i] + [{"w": op["w"][:j] + op["w"][j + 1:]}] + ops[i + 1:]
+                        for j, l in enumerate(op["w"]):
+                            if len(l) > 1:
+                                yield ops[:i] + [{"w": op["w"][:j] + [l[:1]] + op["w"][j + 1:]}] + ops[i + 1:]
+            for v in variants(sc):
+                if case.get("mode") == "w" and not (len(v) == 1 and "with" in v[0]):
+                    continue
+                yield dict(base, script=v)
             if case["batch"]:
-                yield dict(case, batch=None)
+                yield dict(base, script=sc, batch=None)
             if case["gz"]:
-                yield dict(case, gz=False)
+                yield dict(base, script=sc, gz=False)
         elif k == "csv":
             rows = case["rows"]
             for i in range(len(rows)):
@@ -1759,9 +1866,13 @@ class C12(Property):
             return head + ("from coba.pipes.sources import DelimSource, IterableSource\nchunks = %r\n"
                            "print(list(DelimSource(IterableSource(chunks)).read()), '| expected', ''.join(chunks).splitlines())\n" % (case["chunks"],))
         if k == "disk":
+            sc = case.get("script") or [{"w": w} for w in case["writes"]]
+            args = ("" if not case.get("mode") else ", mode=%r" % case["mode"]) + ("" if not case["batch"] else ", batch=%r" % case["batch"])
             return head + ("import tempfile, os\nfrom coba.pipes.sinks import DiskSink\nfrom coba.pipes.sources import DiskSource\n"
-                           "p = os.path.join(tempfile.mkdtemp(), %r)\ns = DiskSink(p%s)\nfor w in %r: s.write(w)\nprint(list(DiskSource(p).read()))\n"
-                           % ("f.log.gz" if case["gz"] else "f.log", ", batch=%r" % case["batch"] if case["batch"] else "", case["writes"]))
+                           "def run(sink, script):\n    for op in script:\n        if 'with' in op:\n            with sink: run(sink, op['with'])\n"
+                           "        else: sink.write(op['w'])\n"
+                           "p = os.path.join(tempfile.mkdtemp(), %r)\ns = DiskSink(p%s)\nrun(s, %r)\nprint(list(DiskSource(p).read()), '| written', %r)\n"
+                           % ("f.log.gz" if case["gz"] else "f.log", args, sc, script_lines(sc)))
         if k == "csv":
             lines = write_csv(case["rows"], case["sp"], case["header"])
             d = case["sp"].get("delimiter", ",")
